@@ -63,6 +63,11 @@ func (b *builder) buildObject(typ *ast.Definition) (*Object, error) {
 			return nil, err
 		}
 		obj.Type = goObject
+		if obj.IsMap() {
+			// a map-backed input is returned as the map itself: the binder never marks
+			// references to it as PointersInUnmarshalInput, so the two must agree
+			obj.PointersInUnmarshalInput = false
+		}
 	}
 
 	for _, intf := range b.Schema.GetImplements(typ) {
